@@ -1,5 +1,7 @@
 (* C07 driver.  Case line:
-     sf <s|c> r=<req>/<req>/... sched=<act>,<act>,...
+     sf <s|c> cfg=g<i|->,u<0|1> r=<req>/<req>/... sched=<act>,<act>,...
+   cfg   = which request carries the connection's grease frame (- : grease off); u1: the transport reports a
+           STOP_SENDING seen by finish as a transport-specific (Unknown) error, u0: as StreamTerminated
    req   = <events>;<stop code|->;<pad>;<hsize>;<body hex|->;<size of the trailer section we send|->
    event = h | hm<j> | ho | hq | hp<n> | dq<total> | d<total>:<hex|-> | m<hex> | F | R<code>      (dot separated)
            t | tm<j> | to | tq | tp<n>   the same kinds for a trailer section
@@ -72,7 +74,7 @@ let serr_str = function
   | SHeaderTooBig -> "s:-:HeaderTooBig"
   | SRemoteClosing -> "s:-:RemoteClosing"
   | SConn c -> "c:" ^ string_of_n c ^ ":Local"
-  | SOtherVariant -> "s:-:Undefined"
+  | SUndefined -> "s:-:Undefined"
 let res_str = function
   | None -> "run"
   | Some ROk -> "ok"
@@ -80,7 +82,7 @@ let res_str = function
   | Some (RPanic s) -> "panic:" ^ string_of_n s
   | Some RUnmodelled -> "unmodelled"
 let dotted f l = if l = [] then "-" else String.concat "." (List.map f l)
-let witem_str = function WHeaders t -> "h" ^ string_of_n t | WData b -> "d" ^ hex_of_bytes b | WTrailers -> "t"
+let witem_str = function WHeaders t -> "h" ^ string_of_n t | WData b -> "d" ^ hex_of_bytes b | WTrailers -> "t" | WGrease -> "g"
 let call_str = function CReset c -> "R" ^ string_of_n c | CStop c -> "S" ^ string_of_n c | CFin -> "F"
 let req_str (r : req) : string =
  res_str r.res ^ ";d=" ^ hex_of_bytes r.acc ^ ";tr=" ^ (if r.gottrl then "1" else "0") ^ ";t=" ^ dotted witem_str r.tx ^ ";c=" ^ dotted call_str r.calls
@@ -89,7 +91,7 @@ let conn_str (s : shared) : string =
 
 let class_str = function
   | KStreamError -> "StreamError" | KRemoteTerminate -> "RemoteTerminate"
-  | KHeaderTooBig -> "HeaderTooBig" | KRemoteClosing -> "RemoteClosing"
+  | KHeaderTooBig -> "HeaderTooBig" | KRemoteClosing -> "RemoteClosing" | KUndefined -> "Undefined"
 let allow_str = function
   | AOk (b, tx, trl) -> "ok:" ^ hex_of_bytes b ^ ":" ^ dotted witem_str tx ^ ":" ^ (if trl then "1" else "0")
   | AErr (k, code, aborts, upto, tx) ->
@@ -100,12 +102,17 @@ let allow_str = function
 let rec nth_req l i = match l with [] -> failwith "req index" | x :: t -> if i = 0 then x else nth_req t (i - 1)
 
 let handle ws = match ws with
-  | ["sf"; role; rs; sc] when starts rs "r=" && starts sc "sched=" ->
+  | ["sf"; role; cf; rs; sc] when starts cf "cfg=" && starts rs "r=" && starts sc "sched=" ->
+      let holder, unk = (match String.split_on_char ',' (sub_from cf 4) with
+        | [g; u] -> ((if g = "g-" then None else Some (int_of_string (sub_from g 1))), u = "u1")
+        | _ -> failwith "cfg") in
       let role = if role = "s" then Server else if role = "c" then Client else failwith "role" in
       let reqs = Array.of_list (List.map parse_req (String.split_on_char '/' (sub_from rs 2))) in
+      let mkcfg i q = { c_role = role; c_hsize = q.hsize; c_body = q.body; c_trl = q.trlz;
+                        c_grease = (holder = Some i); c_unk = unk } in
       let toks = let s = sub_from sc 6 in if s = "-" then [] else String.split_on_char ',' s in
       let w0 = { sh = sh0;
-                 reqs = List.map (fun q -> init_req { c_role = role; c_hsize = q.hsize; c_body = q.body; c_trl = q.trlz } q.script)
+                 reqs = List.mapi (fun i q -> init_req (mkcfg i q) q.script)
                           (Array.to_list reqs) } in
       let acts = List.map (parse_action reqs) toks in
       let w = run acts w0 in
@@ -126,7 +133,7 @@ let handle ws = match ws with
       let inclass = ref true in
       let swords = List.mapi (fun i q ->
           let stop = if List.mem ("s" ^ string_of_int i) toks then q.stop else None in
-          let c = { c_role = role; c_hsize = q.hsize; c_body = q.body; c_trl = q.trlz } in
+          let c = mkcfg i q in
           match classify c { e_stop = stop; e_limit = limit; e_goaway = goaway } q.script with
           | Some l -> "r" ^ string_of_int i ^ "~" ^ String.concat "|" (List.map allow_str l)
           | None -> inclass := false; "r" ^ string_of_int i ^ "~*") (Array.to_list reqs) in
